@@ -778,19 +778,29 @@ def rule_r7(prog, res):
     itf = prog.cls('spyne.interface._base:Interface')
     h = itf.methods.get('has_class')
     k = 0
-    allowed = [('c is None', False), ('o1 is o2', None),
-               ('issubclass(cls, ComplexModelBase)', True),
-               ('issubclass(c, ComplexModelBase)', True),
-               ('set((o1, o2)) == set((Array, Iterable))', True),
-               ('not issubclass(c, ComplexModelBase) or not issubclass(cls, '
-                'ComplexModelBase)', True)]
+    from ..flow import entails, guards_at, flatten_guards
+    reasons = ['o1 is o2', 'set((o1, o2)) == set((Array, Iterable))',
+               'not issubclass(c, ComplexModelBase) or not issubclass(cls, '
+               'ComplexModelBase)']
     for r in walk_no_defs(h.node):
         if isinstance(r, ast.Return) and isinstance(
                 r.value, ast.Constant) and r.value.value is True:
             k += 1
-            guardspec.check(res, 'R7', h, r, 'the waiver of a class-name '
-                            'conflict', allowed=allowed,
-                            key='Interface.has_class|waiver|%d' % k)
+            g = flatten_guards(guards_at(r, stop=h.node))
+            why = [t for t in reasons if entails(g, t)]
+            where = '%s:%d' % (h.module.relpath, r.lineno)
+            res.ob('R7', where, 'Interface.has_class waives a class-name '
+                   'conflict because %s' % (why or 'of nothing recognised'),
+                   'ok' if why else 'VIOLATED')
+            if not why:
+                res.finding('R7', 'Interface.has_class|waiver|%d|widened' % k,
+                            where, 'has_class answers True for a class whose '
+                            'key is taken without one of the recognised '
+                            'reasons holding (same original class, Array/'
+                            'Iterable pair, not both complex): two different '
+                            'classes under one name are taken for one, under '
+                            '%s' % [('' if pol else 'not ') + unparse(e)
+                                    for e, pol in g])
     res.floor('R7', 'waivers in Interface.has_class', k, 2)
 
 
@@ -1057,11 +1067,11 @@ MUTANTS = [
     Mutant('same-structure-conflict-waived', 'R7', 'fire', _I,
            in_func('Interface.has_class',
                    "            raise ValueError(\"classes %r and %r have "
-                   "conflicting names",
+                   "conflicting names: '%s'\" %",
                    "            if o1._type_info == o2._type_info:\n"
                    "                return True\n"
                    "            raise ValueError(\"classes %r and %r have "
-                   "conflicting names"), 'extra-guard'),
+                   "conflicting names: '%s'\" %"), 'widened'),
     Mutant('public-methods-by-public-name', 'R6', 'fire', 'spyne/service.py',
            in_func('ServiceMeta.__init__',
                    "self.public_methods[k] = descriptor",
